@@ -315,7 +315,8 @@ impl World {
             "raw": ps.total_raw_byte_power.to_i64().unwrap(), "qa": ps.total_quality_adj_power.to_i64().unwrap(),
             "rawCommitted": ps.total_bytes_committed.to_i64().unwrap(), "qaCommitted": ps.total_qa_bytes_committed.to_i64().unwrap(),
             "aboveMin": ps.miner_above_min_power_count, "minerCount": ps.miner_count,
-            "pledge": big(&(&ps.total_pledge_collateral - &self.boost)), "boosted": self.boost.is_positive(), "pledgeReal": big(&ps.total_pledge_collateral),
+            "pledge": big(&(&ps.total_pledge_collateral - &self.boost)), "boosted": self.boost.is_positive(), "qaSmoothed": big(&TokenAmount::from_atto(ps.this_epoch_qa_power_smoothed.estimate())),
+            "rewardSmoothed": big(&TokenAmount::from_atto(self.v.state::<fil_actor_reward::State>(&REWARD_ACTOR_ADDR).unwrap().this_epoch_reward_smoothed.estimate())), "pledgeReal": big(&ps.total_pledge_collateral),
             "firstCron": ps.first_cron_epoch,
             "cronq": cronq.into_iter().map(|x| x.1).collect::<Vec<_>>(),
         });
@@ -581,8 +582,32 @@ impl World {
                         self.v.clear_faults();
                         o
                     }
-                    "Dispute" => self.v.run_p(&self.names["rep"], &maddr, &zero, MinerMethod::DisputeWindowedPoSt as u64,
-                        &fil_actor_miner::DisputeWindowedPoStParams { deadline: call["dl"].as_u64().unwrap(), post_index: call["idx"].as_u64().unwrap() }),
+                    "Dispute" => {
+                        let params = fil_actor_miner::DisputeWindowedPoStParams { deadline: call["dl"].as_u64().unwrap(), post_index: call["idx"].as_u64().unwrap() };
+                        if call["failSend"].as_bool().unwrap_or(false) {
+                            // twin execution: what the same dispute charges when the disputer CAN be paid
+                            // (run on a checkpoint and rolled back); then the real one with the transfer failing
+                            let root = self.v.checkpoint();
+                            let epoch0 = self.v.epoch();
+                            let debt0 = self.mstate(m).fee_debt;
+                            let twin = self.v.run_p(&self.names["rep"], &maddr, &zero, MinerMethod::DisputeWindowedPoSt as u64, &params);
+                            if twin.ok() {
+                                let mut tr = vec![];
+                                twin.inv.effective_transfers(&mut tr);
+                                let mid = maddr.id().unwrap();
+                                let out: TokenAmount = tr.iter().filter(|(f, _, _)| *f == mid).map(|(_, _, a)| a.clone()).sum();
+                                ev["twinCharged"] = big(&(out + self.mstate(m).fee_debt - debt0));
+                            }
+                            self.v.rollback(root);
+                            assert_eq!(self.v.epoch(), epoch0);
+                            self.v.clear_faults();
+                            self.v.add_fault(FaultRule { from_type: Some(fil_actors_runtime::runtime::builtins::Type::Miner),
+                                to: Some(self.names["rep"].id().unwrap()), times: 1, ..Default::default() });
+                        }
+                        let o = self.v.run_p(&self.names["rep"], &maddr, &zero, MinerMethod::DisputeWindowedPoSt as u64, &params);
+                        self.v.clear_faults();
+                        o
+                    }
                     _ => panic!("unknown call {a}"),
                 }
             }
@@ -724,7 +749,7 @@ fn random_call(rng: &mut Rng, w: &World, policy: &Policy) -> Value {
                 }
             }
             if !sel.is_empty() {
-                return json!({"a": "PoSt", "m": m, "c": who, "dl": d, "parts": sel, "badProof": rng.chance(4)});
+                return json!({"a": "PoSt", "m": m, "c": who, "dl": d, "parts": sel, "badProof": rng.chance(8)});
             }
         }
     }
@@ -808,9 +833,9 @@ fn random_call(rng: &mut Rng, w: &World, policy: &Policy) -> Value {
                     }
                 }
             }
-            return json!({"a": "Dispute", "m": bm, "dl": bd, "idx": if rng.chance(85) { 0 } else { 1 }});
+            return json!({"a": "Dispute", "m": bm, "dl": bd, "idx": if rng.chance(85) { 0 } else { 1 }, "failSend": rng.chance(35)});
         }
-        return json!({"a": "Dispute", "m": m, "dl": rng.range(0, nd - 1), "idx": rng.range(0, 1)});
+        return json!({"a": "Dispute", "m": m, "dl": rng.range(0, nd - 1), "idx": rng.range(0, 1), "failSend": false});
     }
     if (90..91).contains(&k) {
         return json!({"a": "Fault", "site": *rng.pick(&["reward->miner", "cron->market", "miner->market"])});
